@@ -1,11 +1,250 @@
-(* C19 -- property theorems (placeholder while the package is being built) *)
-From V Require Import Base.Word Base.Field C19.OrdModel.
+(* C19 -- equality, ordering and hashing coincide with mathematical identity.
+   Only statements here; proofs are in coq/C19/{OrdProofs,PointProofs}.v.
 
-Theorem C19_lex_eq_iff : forall c1 c2, lex c1 c2 = Eq <-> c1 = Eq /\ c2 = Eq.
-Proof. exact (fun c1 c2 => match c1, c2 with
-  | Eq, Eq => conj (fun _ => conj eq_refl eq_refl) (fun _ => eq_refl)
-  | Eq, Lt => conj (fun H => conj eq_refl H) (fun H => proj2 H)
-  | Eq, Gt => conj (fun H => conj eq_refl H) (fun H => proj2 H)
-  | Lt, _ => conj (fun H => match Bool.diff_false_true (f_equal (fun c => match c with Lt => false | _ => true end) H) with end) (fun H => match Bool.diff_false_true (f_equal (fun c => match c with Lt => false | _ => true end) (proj1 H)) with end)
-  | Gt, _ => conj (fun H => match Bool.diff_false_true (f_equal (fun c => match c with Gt => false | _ => true end) H) with end) (fun H => match Bool.diff_false_true (f_equal (fun c => match c with Gt => false | _ => true end) (proj1 H)) with end)
-  end). Qed.
+   Conventions: an Fp element is its stored Montgomery limb vector [a]; [fp_valid m a] is the
+   invariant of every stored element (wf, N limbs, val a < p -- preserved by all operations, C01);
+   [std m a] = val (into_bigint m a) is the canonical integer it denotes.  A hasher is an arbitrary
+   function [h] of the structure a type feeds to it ([*_hash_key]). *)
+From V Require Import Base.Word Base.Field C15.BigIntModel C01.MontModel C01.MontProofs
+  C03.CurveExec C03.FieldHyp C03.TEProofs
+  C19.OrdModel C19.Exprs C19.OrdProofs C19.PointProofs C19.Examples.
+
+(* ================= prime fields ================= *)
+
+Theorem C19_fp_eq_iff_same_residue : forall m, wf m -> val m mod 2 = 1 ->
+  forall a b, fp_valid m a -> fp_valid m b -> (fp_eqb a b = true <-> std m a = std m b).
+Proof. exact fp_eq_iff_same_residue. Qed.
+
+Theorem C19_fp_ord_is_integer_order : forall m, wf m -> val m mod 2 = 1 ->
+  forall a b, fp_valid m a -> fp_valid m b -> fp_cmp m a b = Z.compare (std m a) (std m b).
+Proof. exact fp_cmp_is_integer_order. Qed.
+
+(* total (to_total), antisymmetric, transitive, Eq exactly on identical elements *)
+Theorem C19_fp_ord_total_order : forall m, wf m -> val m mod 2 = 1 -> total_order_on (fp_valid m) (fp_cmp m).
+Proof. exact fp_cmp_total_order. Qed.
+
+Theorem C19_total_order_is_total : forall T (D : T -> Prop) cmpf, total_order_on D cmpf ->
+  forall a b, D a -> D b -> cmpf a b = Lt \/ a = b \/ cmpf b a = Lt.
+Proof. exact (fun T => @to_total T). Qed.
+
+Theorem C19_fp_ord_consistent_with_eq : forall m, wf m -> val m mod 2 = 1 ->
+  forall a b, fp_valid m a -> fp_valid m b -> (fp_cmp m a b = Eq <-> fp_eqb a b = true).
+Proof. exact fp_cmp_consistent_with_eq. Qed.
+
+Theorem C19_fp_is_zero_spec : forall m, wf m -> val m mod 2 = 1 -> 1 < val m ->
+  forall a, fp_valid m a -> (fp_is_zero m a = true <-> std m a = 0).
+Proof. exact fp_is_zero_spec. Qed.
+
+Theorem C19_fp_is_one_spec : forall m, wf m -> val m mod 2 = 1 -> 1 < val m ->
+  forall a, fp_valid m a -> (fp_is_one m a = true <-> std m a = 1).
+Proof. exact fp_is_one_spec. Qed.
+
+Theorem C19_fp_hash_respects_eq : forall (H : Type) (h : list Z -> H) a b,
+  fp_eqb a b = true -> h (fp_hash_key a) = h (fp_hash_key b).
+Proof. exact fp_hash_respects_eq. Qed.
+
+(* the stored form of the residue v used by the executable model *)
+Theorem C19_fp_of_int_spec : forall m, wf m -> val m mod 2 = 1 -> 1 < val m ->
+  forall v, fp_valid m (fp_of_int m v) /\ std m (fp_of_int m v) = v mod val m.
+Proof. exact fp_of_int_spec. Qed.
+
+Example C19_fp_example : (wf [13] /\ val [13] mod 2 = 1 /\ 1 < val [13]) /\
+  fp_valid [13] (fp_of_int [13] 5) /\ fp_valid [13] (fp_of_int [13] 11) /\
+  fp_of_int [13] 5 = [2] /\ std [13] (fp_of_int [13] 5) = 5.
+Proof. exact (conj ex_mod13 ex_fp_valid). Qed.
+(* 4 < 5 although the stored limbs are [12] and [2]: the order is the integer order, not the limb order *)
+Example C19_fp_cmp_example : fp_cmp [13] (fp_of_int [13] 5) (fp_of_int [13] 11) = Lt /\
+  fp_cmp [13] (fp_of_int [13] 4) (fp_of_int [13] 5) = Lt /\ cmp (fp_of_int [13] 4) (fp_of_int [13] 5) = Gt.
+Proof. exact (conj eq_refl (conj eq_refl eq_refl)). Qed.
+
+(* ================= big integers ================= *)
+
+Theorem C19_bigint_cmp_total_order : forall N, total_order_on (limbs_N N) bigint_cmp.
+Proof. exact bigint_cmp_total_order. Qed.
+Theorem C19_bigint_cmp_is_integer_order : forall a b, wf a -> wf b -> length a = length b ->
+  bigint_cmp a b = Z.compare (val a) (val b).
+Proof. exact bigint_cmp_is_integer_order. Qed.
+Theorem C19_bigint_eq_iff_same_integer : forall a b, wf a -> wf b -> length a = length b ->
+  (bigint_eqb a b = true <-> val a = val b).
+Proof. exact bigint_eq_iff_same_integer. Qed.
+Theorem C19_bigint_is_zero_spec : forall a, wf a -> (bigint_is_zero a = true <-> val a = 0).
+Proof. exact bigint_is_zero_spec. Qed.
+Theorem C19_bigint_hash_respects_eq : forall (H : Type) (h : list Z -> H) a b,
+  bigint_eqb a b = true -> h (bigint_hash_key a) = h (bigint_hash_key b).
+Proof. exact bigint_hash_respects_eq. Qed.
+Example C19_bigint_example : limbs_N 2 [5; 7] /\ limbs_N 2 [6; 7].
+Proof. exact ex_limbs. Qed.
+
+(* ================= extension towers ================= *)
+
+(* generic: the lexicographic product (major key g1, minor key g2) of two total orders *)
+Theorem C19_lex_product_total_order :
+  forall (P T1 T2 : Type) (g1 : P -> T1) (g2 : P -> T2) (D : P -> Prop) (D1 : T1 -> Prop) (D2 : T2 -> Prop)
+         (c1 : T1 -> T1 -> comparison) (c2 : T2 -> T2 -> comparison),
+  (forall a, D a -> D1 (g1 a) /\ D2 (g2 a)) ->
+  (forall a b, D a -> D b -> g1 a = g1 b -> g2 a = g2 b -> a = b) ->
+  total_order_on D1 c1 -> total_order_on D2 c2 ->
+  total_order_on D (fun a b => lex (c1 (g1 a) (g1 b)) (c2 (g2 a) (g2 b))).
+Proof. exact (fun P T1 T2 => @lex2_total_order P T1 T2). Qed.
+
+(* any base whose relations coincide with mathematical identity gives a quadratic / cubic
+   extension with the same property: == iff same coordinates, one stored structure per value,
+   total order, is_zero / is_one iff the coordinates of 0 / 1 *)
+Theorem C19_quad_ext_relations : forall T (D : T -> Prop) (den : T -> list Z) (B : Cops T),
+  good_cops D den B -> good_cops (quad_D D) (quad_den den) (QuadC B).
+Proof. exact (fun T => @quad_good T). Qed.
+Theorem C19_cubic_ext_relations : forall T (D : T -> Prop) (den : T -> list Z) (B : Cops T),
+  good_cops D den B -> good_cops (cubic_D D) (cubic_den den) (CubicC B).
+Proof. exact (fun T => @cubic_good T). Qed.
+Theorem C19_fp_relations : forall m, wf m -> val m mod 2 = 1 -> 1 < val m ->
+  good_cops (fp_valid m) (fun a => [std m a]) (FpC m).
+Proof. exact fp_good. Qed.
+
+(* the documented orders: c1 first then c0; c2, c1, c0 *)
+Theorem C19_quad_cmp_lexicographic : forall T (B : Cops T) a b,
+  quad_cmp B a b = Lt <->
+  c_cmp B (snd a) (snd b) = Lt \/ (c_cmp B (snd a) (snd b) = Eq /\ c_cmp B (fst a) (fst b) = Lt).
+Proof. exact (fun T => @quad_cmp_lexicographic T). Qed.
+Theorem C19_cubic_cmp_lexicographic : forall T (B : Cops T) a b,
+  cubic_cmp B a b = Lt <->
+  c_cmp B (c2 a) (c2 b) = Lt \/
+  (c_cmp B (c2 a) (c2 b) = Eq /\
+   (c_cmp B (c1 a) (c1 b) = Lt \/ (c_cmp B (c1 a) (c1 b) = Eq /\ c_cmp B (c0 a) (c0 b) = Lt))).
+Proof. exact (fun T => @cubic_cmp_lexicographic T). Qed.
+
+Theorem C19_ext_hash_respects_eq : forall T (D : T -> Prop) (den : T -> list Z) (B : Cops T),
+  good_cops D den B -> forall (H : Type) (h : T -> H) a b, D a -> D b -> c_eqb B a b = true -> h a = h b.
+Proof. exact (fun T => @hash_respects_eq T). Qed.
+Theorem C19_ext_cmp_consistent_with_eq : forall T (D : T -> Prop) (den : T -> list Z) (B : Cops T),
+  good_cops D den B -> forall a b, D a -> D b -> (c_cmp B a b = Eq <-> c_eqb B a b = true).
+Proof. exact (fun T => @cmp_eq_iff_eqb T). Qed.
+
+(* instances: Fq12 = ((Fp[u])[v])[w] of BLS12 / BN curves; Fq3 of MNT6 *)
+Theorem C19_fq12_relations : forall m, wf m -> val m mod 2 = 1 -> 1 < val m ->
+  good_cops (quad_D (cubic_D (quad_D (fp_valid m))))
+            (quad_den (cubic_den (quad_den (fun a => [std m a]))))
+            (QuadC (CubicC (QuadC (FpC m)))).
+Proof. exact fq12_tower_good. Qed.
+Theorem C19_fq3_relations : forall m, wf m -> val m mod 2 = 1 -> 1 < val m ->
+  good_cops (cubic_D (fp_valid m)) (cubic_den (fun a => [std m a])) (CubicC (FpC m)).
+Proof. exact fq3_tower_good. Qed.
+
+(* PairingOutput: relations of the target field; is_zero is the field's is_one *)
+Theorem C19_pairing_output_is_zero : forall T (D : T -> Prop) (den : T -> list Z) (B : Cops T),
+  good_cops D den B -> forall a, D a -> (gt_is_zero B a = true <-> den a = 1 :: repeat 0 (c_deg B - 1)).
+Proof. exact (fun T => @gt_is_zero_spec T). Qed.
+
+(* ================= curve points ================= *)
+
+Theorem C19_sw_proj_eq_iff_same_affine : forall T (F : Fops T), good_field F ->
+  forall P Q, sw_eqb F P Q = true <-> sw_to_affine F P = sw_to_affine F Q.
+Proof. exact (fun T => @sw_proj_eq_iff_same_affine T). Qed.
+
+Theorem C19_sw_proj_eq_iff_same_hash_key : forall T (F : Fops T), good_field F ->
+  forall P Q, sw_eqb F P Q = true <-> sw_hash_key F P = sw_hash_key F Q.
+Proof. exact (fun T => @sw_proj_eq_iff_same_hash_key T). Qed.
+
+Theorem C19_sw_proj_hash_respects_eq : forall T (F : Fops T), good_field F ->
+  forall (H : Type) (h : sw_raw -> H) P Q, sw_eqb F P Q = true -> h (sw_hash_key F P) = h (sw_hash_key F Q).
+Proof. exact (fun T => @sw_proj_hash_respects_eq T). Qed.
+
+Theorem C19_sw_into_affine_eq : forall T (F : Fops T), good_field F ->
+  forall P Q, sw_raw_eqb F (sw_into_affine F P) (sw_into_affine F Q) = sw_eqb F P Q.
+Proof. exact (fun T => @sw_into_affine_eq T). Qed.
+
+Theorem C19_sw_affine_eq_canonical : forall T (F : Fops T), good_field F ->
+  forall r s, sw_raw_canonical F r -> sw_raw_canonical F s ->
+  (sw_raw_eqb F r s = true <-> sw_aff_of_raw r = sw_aff_of_raw s).
+Proof. exact (fun T => @sw_raw_canonical_eq T). Qed.
+
+Theorem C19_sw_proj_eq_aff : forall T (F : Fops T), good_field F ->
+  forall P A, sw_proj_eq_aff F P A = true <-> sw_to_affine F P = A.
+Proof. exact (fun T => @sw_proj_eq_aff_spec T). Qed.
+Theorem C19_sw_aff_eq_proj : forall T (F : Fops T), good_field F ->
+  forall A P, sw_aff_eq_proj F A P = true <-> A = sw_to_affine F P.
+Proof. exact (fun T => @sw_aff_eq_proj_spec T). Qed.
+
+Theorem C19_sw_is_zero_spec : forall T (F : Fops T), good_field F ->
+  forall P, sw_is_zero F P = true <-> sw_to_affine F P = None.
+Proof. exact (fun T => @sw_is_zero_spec T). Qed.
+
+Theorem C19_sw_identity_any_coords : forall T (F : Fops T), good_field F ->
+  forall x y x' y', sw_eqb F (x, y, f0 F) (x', y', f0 F) = true.
+Proof. exact (fun T => @sw_identity_any_coords T). Qed.
+
+Theorem C19_sw_rescale_same_point : forall T (F : Fops T), good_field F ->
+  forall lam P, lam <> f0 F -> sw_to_affine F (sw_rescale F lam P) = sw_to_affine F P.
+Proof. exact (fun T => @sw_rescale_same_point T). Qed.
+
+Theorem C19_te_proj_eq_iff_same_affine : forall T (F : Fops T), good_field F ->
+  forall P Q, te_valid F P -> te_valid F Q ->
+  (te_eqb F P Q = true <-> te_to_affine F P = te_to_affine F Q).
+Proof. exact (fun T => @te_proj_eq_iff_same_affine T). Qed.
+
+Theorem C19_te_proj_hash_respects_eq : forall T (F : Fops T), good_field F ->
+  forall (H : Type) (h : te_aff -> H) P Q, te_valid F P -> te_valid F Q ->
+  te_eqb F P Q = true -> h (te_hash_key F P) = h (te_hash_key F Q).
+Proof. exact (fun T => @te_proj_hash_respects_eq T). Qed.
+
+Theorem C19_te_into_affine_eq : forall T (F : Fops T), good_field F ->
+  forall P Q, te_valid F P -> te_valid F Q ->
+  te_aff_eqb F (te_hash_key F P) (te_hash_key F Q) = te_eqb F P Q.
+Proof. exact (fun T => @te_into_affine_eq T). Qed.
+
+Theorem C19_te_proj_eq_aff : forall T (F : Fops T), good_field F ->
+  forall P A, te_valid F P -> (te_proj_eq_aff F P A = true <-> te_to_affine F P = A).
+Proof. exact (fun T => @te_proj_eq_aff_spec T). Qed.
+Theorem C19_te_aff_eq_proj : forall T (F : Fops T), good_field F ->
+  forall A P, te_valid F P -> (te_aff_eq_proj F A P = true <-> A = te_to_affine F P).
+Proof. exact (fun T => @te_aff_eq_proj_spec T). Qed.
+
+Theorem C19_te_rescale_same_point : forall T (F : Fops T), good_field F ->
+  forall lam P, lam <> f0 F -> te_valid F P ->
+  te_valid F (te_rescale F lam P) /\ te_to_affine F (te_rescale F lam P) = te_to_affine F P.
+Proof. exact (fun T => @te_rescale_same_point T). Qed.
+
+Theorem C19_te_identity_any_z : forall T (F : Fops T), good_field F ->
+  forall z z', z <> f0 F -> z' <> f0 F -> te_eqb F (f0 F, z, f0 F, z) (f0 F, z', f0 F, z') = true.
+Proof. exact (fun T => @te_identity_any_z T). Qed.
+
+Example C19_good_field_example : good_field QcOps.
+Proof. exact QcOps_good. Qed.
+Example C19_rescale_example : q 2 <> f0 QcOps /\ te_valid QcOps (q 0, q 3, q 0, q 3).
+Proof. exact (conj ex_rescale_nz ex_te_valid). Qed.
+(* (2, 3) on y^2 = x^3 + 1, rescaled by 2: (8, 24, 2) is the same point, (8, -24, 2) is not *)
+Example C19_sw_rescale_example :
+  sw_rescale QcOps (q 2) (q 2, q 3, q 1) = (q 8, q 24, q 2) /\
+  sw_eqb QcOps (q 8, q 24, q 2) (q 2, q 3, q 1) = true /\
+  sw_eqb QcOps (q 8, q (-24), q 2) (q 2, q 3, q 1) = false.
+Proof. exact (conj eq_refl (conj eq_refl eq_refl)). Qed.
+
+(* ================= polynomials ================= *)
+
+Theorem C19_poly_eq_iff_same_poly : forall T (z : T) (eqb : T -> T -> bool),
+  (forall x y, eqb x y = true <-> x = y) ->
+  forall p q, dense_canonical z p -> dense_canonical z q ->
+  (dense_eqb eqb p q = true <-> forall i, nth i p z = nth i q z).
+Proof. exact (fun T => @poly_eq_iff_same_poly T). Qed.
+
+Theorem C19_poly_hash_respects_eq : forall T (eqb : T -> T -> bool),
+  (forall x y, eqb x y = true <-> x = y) ->
+  forall (H : Type) (h : list T -> H) p q, dense_eqb eqb p q = true -> h p = h q.
+Proof. exact (fun T => @dense_hash_respects_eq T). Qed.
+
+Theorem C19_poly_is_zero_spec : forall T (z : T) (is0 : T -> bool),
+  (forall x, is0 x = true <-> x = z) ->
+  forall p, dense_is_zero is0 p = true <-> forall i, nth i p z = z.
+Proof. exact (fun T => @dense_is_zero_spec T). Qed.
+
+Theorem C19_poly_is_zero_canonical : forall T (z : T) (is0 : T -> bool),
+  (forall x, is0 x = true <-> x = z) ->
+  forall p, dense_canonical z p -> (dense_is_zero is0 p = true <-> p = []).
+Proof. exact (fun T => @dense_is_zero_canonical T). Qed.
+
+Theorem C19_poly_trim_canonical : forall T (z : T) (is0 : T -> bool),
+  (forall x, is0 x = true <-> x = z) ->
+  forall p, dense_canonical z (trim is0 p) /\ forall i, nth i (trim is0 p) z = nth i p z.
+Proof. exact (fun T => @trim_spec T). Qed.
+
+Example C19_poly_example : dense_canonical 0 [1; 0; 2] /\ dense_canonical 0 (trim (Z.eqb 0) [1; 0; 2; 0; 0]).
+Proof. exact ex_canonical. Qed.
